@@ -1218,6 +1218,10 @@ impl<P: Pid> World for Ep<P> {
             }
             if al.peer_ping {
                 v.push(if m.as_client { Act::PPingresp } else { Act::PPingreq });
+                // role Any has no receive gating: a stray PINGRESP reaching its server side is a packet it accepts
+                if !m.as_client && self.cfg.role == RoleK::Any {
+                    v.push(Act::PPingresp);
+                }
             }
             if al.peer_disconnect && (!m.as_client || self.v5()) {
                 v.push(Act::PDisconnect);
